@@ -1,104 +1,134 @@
+// govc: contract verifier for the go-sstables repository (VC generation over go/ssa, SMT back ends).
 package main
 
 import (
 	"flag"
 	"fmt"
 	"os"
+	"path/filepath"
 	"sort"
 	"strings"
-	"sync"
 	"time"
 
 	"govc/internal/load"
-	"govc/internal/solve"
-	"govc/internal/sym"
+	"govc/internal/run"
 )
 
+var defaultPkgs = []string{"./recordio/...", "./sstables/...", "./simpledb", "./simpledb/proto", "./memstore", "./wal/...", "./pq", "./skiplist", "./kaitai/gokaitai"}
+
+func usage() {
+	fmt.Fprintln(os.Stderr, `usage:
+  govc check  --property Cxx [--tier quick|thorough] [--seed N]     decide one property (MANIFEST commands)
+  govc verify [--func substr] [--prop Cxx] [--safety] [-v]          development: run obligations of matching contracts
+  govc list                                                         contracts, bindings, properties
+  govc replay <file>                                                re-run the replay recorded in a replay file
+  govc selftest [--property Cxx]                                    must-fail corpus: every mutant has to be caught`)
+	os.Exit(2)
+}
+
 func main() {
-	repo := flag.String("repo", "/repo", "repository root")
-	pkgs := flag.String("pkgs", "./...", "comma separated package patterns")
-	contracts := flag.String("contracts", "", "comma separated extra contract files")
-	only := flag.String("func", "", "only functions whose key contains this")
-	out := flag.String("out", "/tmp/govc-out", "scratch dir for smt scripts")
-	safety := flag.Bool("safety", false, "emit safety obligations")
-	timeout := flag.Duration("timeout", 10*time.Second, "per obligation")
-	verbose := flag.Bool("v", false, "verbose")
-	flag.Parse()
-	os.MkdirAll(*out, 0o755)
-	var extra []string
-	if *contracts != "" {
-		extra = strings.Split(*contracts, ",")
+	if len(os.Args) < 2 {
+		usage()
 	}
-	t0 := time.Now()
-	p, err := load.Load(*repo, strings.Split(*pkgs, ","), "verif", extra)
-	if err != nil {
-		fmt.Println("load error:", err)
-		os.Exit(2)
+	cmd := os.Args[1]
+	fs := flag.NewFlagSet(cmd, flag.ExitOnError)
+	repo := fs.String("repo", "/repo", "repository root")
+	verif := fs.String("verif", "", "verification root (default: directory above the binary)")
+	prop := fs.String("property", "", "property id")
+	prop2 := fs.String("prop", "", "property id (verify)")
+	tier := fs.String("tier", envOr("VERIF_TIER", "quick"), "quick or thorough")
+	seed := fs.Int("seed", envInt("VERIF_SEED", 0), "seed")
+	only := fs.String("func", "", "only functions whose key contains this")
+	safety := fs.Bool("safety", false, "emit safety obligations for every function")
+	verbose := fs.Bool("v", false, "verbose")
+	timeout := fs.Duration("timeout", 0, "per obligation limit (default by tier)")
+	keep := fs.Bool("keep", false, "keep SMT scripts")
+	noev := fs.Bool("noevidence", false, "do not write the evidence file (selftest runs)")
+	outdir := fs.String("outdir", "", "scratch directory (default <verif>/out)")
+	fs.Parse(os.Args[2:])
+	root := *verif
+	if root == "" {
+		exe, _ := os.Executable()
+		root = filepath.Dir(filepath.Dir(exe))
 	}
-	for _, e := range p.Errors {
-		fmt.Println("contract error:", e)
-	}
-	fmt.Printf("loaded in %.1fs: %d functions, %d contracts\n", time.Since(t0).Seconds(), len(p.Funcs), len(p.Contracts))
-	var keys []string
-	for k, c := range p.Contracts {
-		if c.Kind == "func" && !c.Trusted && strings.Contains(k, *only) {
+	cfg := run.Config{Repo: *repo, Verif: root, Tier: *tier, Seed: *seed, Verbose: *verbose, Timeout: *timeout, KeepScripts: *keep, Safety: *safety, Pkgs: defaultPkgs, NoEvidence: *noev, OutDir: *outdir}
+	switch cmd {
+	case "check":
+		if *prop == "" {
+			usage()
+		}
+		os.Exit(run.Check(cfg, *prop))
+	case "verify":
+		os.Exit(run.Verify(cfg, *only, *prop2))
+	case "list":
+		t0 := time.Now()
+		p, err := run.LoadAll(cfg)
+		if err != nil {
+			fmt.Println("load error:", err)
+			os.Exit(2)
+		}
+		for _, e := range p.Errors {
+			fmt.Println("contract error:", e)
+		}
+		var keys []string
+		for k := range p.Contracts {
 			keys = append(keys, k)
 		}
-	}
-	sort.Strings(keys)
-	type job struct {
-		x *sym.Exec
-		o *sym.Obligation
-		r solve.Result
-	}
-	var jobs []*job
-	for _, k := range keys {
-		fn := p.Funcs[k]
-		if fn == nil {
-			fmt.Printf("UNBOUND contract %s\n", k)
-			continue
+		sort.Strings(keys)
+		for _, k := range keys {
+			c := p.Contracts[k]
+			bound := "bound"
+			if c.Kind == "func" && p.Funcs[k] == nil {
+				bound = "UNBOUND"
+			}
+			tr := ""
+			if c.Trusted {
+				tr = " trusted"
+			}
+			fmt.Printf("%-5s %-8s%s %s  props=%s  (%s:%d)\n", c.Kind, bound, tr, k, strings.Join(c.Props, ","), filepath.Base(c.File), c.Line)
 		}
-		x := sym.New(p, fn, p.Contracts[k], sym.Options{Safety: *safety})
-		x.Run()
-		for _, d := range x.Diag {
-			fmt.Printf("  diag %s: %s\n", k[strings.LastIndex(k, "/")+1:], d)
+		for _, l := range p.Lemmas {
+			fmt.Printf("lemma %s props=%s\n", l.Name, strings.Join(l.Props, ","))
 		}
-		for _, o := range x.Obls {
-			jobs = append(jobs, &job{x: x, o: o})
+		fmt.Printf("%d contracts, %d lemmas, %d functions indexed, %.1fs\n", len(p.Contracts), len(p.Lemmas), len(p.Funcs), time.Since(t0).Seconds())
+	case "replay":
+		if fs.NArg() < 1 {
+			usage()
 		}
+		os.Exit(run.Replay(cfg, fs.Arg(0)))
+	case "selftest":
+		os.Exit(run.Selftest(cfg, *prop))
+	default:
+		usage()
 	}
-	var mu sync.Mutex
-	var fs []func()
-	for i, j := range jobs {
-		i, j := i, j
-		script := j.x.Script(j.o) // rendered sequentially: the declaration context is not thread-safe
-		fs = append(fs, func() {
-			r := solve.Race(script, *out, fmt.Sprintf("ob%04d", i), *timeout, j.o.Cover)
-			mu.Lock()
-			j.r = r
-			mu.Unlock()
-		})
+	_ = load.FuncKey
+}
+
+func envOr(k, d string) string {
+	if v := os.Getenv(k); v != "" {
+		return v
 	}
-	solve.Pool(16, fs)
-	okN, bad := 0, 0
-	for i, j := range jobs {
-		want := "unsat"
-		if j.o.Cover {
-			want = "sat"
+	return d
+}
+
+func envInt(k string, d int) int {
+	if v := os.Getenv(k); v != "" {
+		n := 0
+		neg := false
+		for i, c := range v {
+			if i == 0 && c == '-' {
+				neg = true
+				continue
+			}
+			if c < '0' || c > '9' {
+				return d
+			}
+			n = n*10 + int(c-'0')
 		}
-		status := "ok  "
-		if j.r.Answer != want {
-			status = "FAIL"
-			bad++
-		} else {
-			okN++
+		if neg {
+			n = -n
 		}
-		if *verbose || status == "FAIL" {
-			fmt.Printf("%s ob%04d %-7s %-6s %5.2fs %s\n      %s\n", status, i, j.r.Answer, j.r.Solver, j.r.Time.Seconds(), j.o.Name, j.o.Source)
-		}
+		return n
 	}
-	fmt.Printf("obligations: %d, as expected: %d, failed: %d, wall %.1fs\n", len(jobs), okN, bad, time.Since(t0).Seconds())
-	if bad > 0 {
-		os.Exit(1)
-	}
+	return d
 }
